@@ -209,6 +209,9 @@ class Info:
         self.polls = [e for e in post if e["ev"] == "POLL"]
         t = [e for e in self.polls if e["ans"]]
         self.first_true = t[0]["seq"] if t else None
+        # the failure was *recorded* by the loop: classified and not cut short by the
+        # abort poll that immediately follows the failure
+        self.recorded = self.classified and not (self.polls and self.polls[0]["ans"])
         self.decision = self.handlers[0]["decision"] if self.handlers else "S"
         self.after_sleep_us = (self.sleep_ends[-1]["t"] - cf.t0) if self.sleep_ends else None
         self.overshoot = sum(e["overshoot"] for e in self.sleep_ends)
